@@ -1,5 +1,5 @@
 """C04 - ciphers and modes match their standards, invert, and are chunking-invariant."""
-import ctypes, hashlib, struct
+import ctypes, hashlib, os, struct
 from ctypes import c_size_t, byref
 from hypothesis import strategies as st
 from vlib.core import Prop
@@ -1097,3 +1097,91 @@ def chacha20(case, ctx):
          "chacha20/counter-wrap" if wraps else "chacha20/keystream")
     if n1:
         same(ctx, o1.raw(64), blk.chacha20_block_py(key, nonce, ctr0), "chacha20 first block vs RFC 8439 block function", "chacha20/block")
+
+
+# ---------------------------------------------------------------------------
+# the command-line tools are callers of the streaming interfaces: they read 4096 bytes at a time, so a file longer than that is a
+# multi-chunk stream.  Encrypting a file must give the reference bytes and decrypting that output must give the file back, for every length.
+TOOLS = ["sm4_cbc", "sm4_cbc", "sm4_ctr", "sm4_cfb", "sm4_ofb", "sm4_ecb", "sm4_gcm", "sm4_gcm", "sm4_cbc_sm3_hmac", "sm4_ctr_sm3_hmac"]
+tool_case = st.fixed_dictionaries({
+    "tool": st.sampled_from(TOOLS), "kpat": st.sampled_from([0, 0, 0, 1, 2]), "seed": st.integers(0, 1 << 32), "pat": st.integers(0, 3),
+    "n": st.one_of(st.sampled_from([4097, 8192, 8193, 12289]), st.sampled_from([1, 15, 16, 17, 4064, 4079, 4080, 4081, 4095, 4096, 4097, 4111, 4112, 4113, 8176, 8191, 8192, 8193, 8208, 12288, 12289, 20000]),
+                   st.integers(1, 20000), st.integers(1, 300)),
+    "aad": st.integers(0, 40), "taglen": st.sampled_from([16, 16, 12, 13, 14, 15]), "sbytes": st.sampled_from([16, 16, 8, 1])})
+_TOOL = {}
+
+
+def _tool_bin():
+    if "bin" not in _TOOL:
+        from vlib import build as B
+        _TOOL["bin"] = B.ensure_tool("asan")
+        _TOOL["dir"] = os.path.join(B.BUILD, "tmp", "c04tools_%d" % os.getpid())
+        os.makedirs(_TOOL["dir"], exist_ok=True)
+    return _TOOL["bin"], _TOOL["dir"]
+
+
+def _run_tool(args, data):
+    """-> (exit status, output file bytes, stderr tail); the tool is its own ASan-instrumented process"""
+    import subprocess
+    exe, d = _tool_bin()
+    fin, fout = os.path.join(d, "in"), os.path.join(d, "out")
+    open(fin, "wb").write(data)
+    if os.path.exists(fout):
+        os.unlink(fout)
+    env = {k: v for k, v in os.environ.items() if k not in ("LD_PRELOAD",)}
+    env["ASAN_OPTIONS"] = "detect_leaks=0:abort_on_error=0:exitcode=77"
+    r = subprocess.run([exe] + args + ["-in", fin, "-out", fout], env=env, capture_output=True, timeout=600)
+    out = open(fout, "rb").read() if os.path.exists(fout) else b""
+    return r.returncode, out, r.stderr[-300:].decode("latin1")
+
+
+@P.sub("tools", tool_case, quick=420, thorough=12000, variants=("asan",))
+def tools(case, ctx):
+    """gmssl sm4_<mode> -encrypt / -decrypt on files of generated length (the tools feed 4096-byte chunks to the streaming interfaces):
+    ciphertext file vs the reference of the mode, decrypted file vs the original"""
+    tool, n = case["tool"], case["n"]
+    hm = tool.endswith("sm3_hmac")
+    key = keymat(48 if hm else 16, case["kpat"], case["seed"])
+    iv = keymat(12 if tool == "sm4_gcm" else 16, case["kpat"], case["seed"], "iv")
+    data = content(n, case["pat"], case["seed"])
+    aad = keymat(case["aad"], 0, case["seed"], "aad") if (hm or tool == "sm4_gcm") else b""
+    if tool == "sm4_ecb":
+        n -= n % 16
+        if n == 0:
+            n = 16
+        data = content(n, case["pat"], case["seed"])
+    args = ["-key", key.hex()] + ([] if tool == "sm4_ecb" else ["-iv", iv.hex()])
+    if aad:
+        args += ["-aad_hex", aad.hex()]
+    if tool == "sm4_gcm" and case["taglen"] != 16:
+        args += ["-taglen", str(case["taglen"])]
+    if tool == "sm4_cfb" and case["sbytes"] != 16:
+        args += ["-sbytes", str(case["sbytes"])]
+    chunks = (n + 4095) // 4096
+    ctx.case(nontrivial=chunks >= 2, ident=case, sample=case, classes=[tool, "chunks=%d" % min(chunks, 4), "n%%16=%d" % (n % 16) if n % 16 in (0, 1, 15) else "n%16=other"])
+    rc, ct, err = _run_tool([tool, "-encrypt"] + args, data)
+    ctx.check(rc != 77, "gmssl %s -encrypt (%d bytes): AddressSanitizer report: %s" % (tool, n, err), "tools/%s/asan" % tool)
+    ctx.check(rc == 0, "gmssl %s -encrypt of a %d-byte file exits %d: %s" % (tool, n, rc, err), "tools/%s/encrypt-exit" % tool)
+    exp = None
+    if tool == "sm4_cbc":
+        exp = MD.cbc_encrypt_pad("sm4", key, iv, data)
+    elif tool == "sm4_ctr":
+        exp = MD.ctr_crypt("sm4", key, iv, data)[0]
+    elif tool == "sm4_ofb":
+        exp = MD.ofb_crypt("sm4", key, iv, data)[0]
+    elif tool == "sm4_ecb":
+        exp = blk.ecb("sm4", key, data)
+    elif tool == "sm4_gcm":
+        c, t = MD.gcm_encrypt("sm4", key, iv, aad, data, case["taglen"])
+        exp = c + t
+    elif tool == "sm4_cfb":
+        ctx.check(MD.cfb_decrypt("sm4", key, iv, case["sbytes"], ct) == data and len(ct) == n,
+                  "gmssl sm4_cfb -encrypt (%d bytes, sbytes=%d): output is not the CFB ciphertext" % (n, case["sbytes"]), "tools/sm4_cfb/ciphertext")
+    if exp is not None:
+        same(ctx, ct, exp, "gmssl %s -encrypt of a %d-byte file" % (tool, n), "tools/%s/ciphertext" % tool)
+    rc, back, err = _run_tool([tool, "-decrypt"] + args, ct)
+    ctx.check(rc != 77, "gmssl %s -decrypt (%d bytes): AddressSanitizer report: %s" % (tool, len(ct), err), "tools/%s/asan" % tool)
+    big = "gt4096" if len(ct) > 4096 else "le4096"
+    ctx.check(rc == 0 and back == data, "gmssl %s -decrypt of its own %d-byte output (plaintext %d bytes) exits %d and returns %d bytes, first difference at %s: %s" %
+              (tool, len(ct), n, rc, len(back), next((i for i in range(min(len(back), n)) if back[i] != data[i]), min(len(back), n)), err[-120:]),
+              "tools/%s/roundtrip/%s" % (tool, big))
